@@ -1151,6 +1151,7 @@ func checkC16(c *Ctx, p *Prog, r *Result) {
 	// (f) devmod writer budget
 	c16DevmodBudget(p, r, f, root)
 	c16KeyFollowsRawKey(p, r)
+	c16YieldTargetFollowsMessages(p, r, f)
 }
 
 func condRoot(v ssa.Value) ssa.Value {
